@@ -2,7 +2,7 @@ From Coq Require Import List NArith Bool.
 From V.gen Require Consts.
 From V.C14 Require Model Proofs.
 From V.C17 Require Model.
-From V.C16 Require Import Model Proofs Obl Bound Chan Compose Comp.
+From V.C16 Require Import Model Proofs Obl Bound Chan Exec Time Compose Comp.
 Import ListNotations.
 Open Scope N_scope.
 From V.C16 Require Import Properties.
@@ -130,7 +130,8 @@ Check (C16_get_record_local :
   fst (cstep wc w (UCmd q (UCGet qr rk) target)) =
   match qr, hit with
   | QOne, true => (w, [OPartial q (g_local g) LOCAL_REC; OGetRecSuccess q])
-  | _, _ => (mkW lookup (w_rt w) (w_store w), if hit then [OPartial q (g_local g) LOCAL_REC] else [])
+  | _, _ => (mkW lookup (w_rt w) (w_store w) (w_prov w) (w_timers w),
+             if hit then [OPartial q (g_local g) LOCAL_REC] else [])
   end).
 Check (C16_store_records_live :
   forall wc m L us, 1 <= wc_ttl wc -> SI wc (w_store (fst (crun wc (w0 wc m L) us)))).
@@ -138,7 +139,7 @@ Check (C16_put_then_get :
   forall wc m L us1 u us2 q rk target,
   1 <= wc_ttl wc -> REC_LEN < V.C17.Model.max_size (wc_scfg wc) ->
   N.of_nat (length (us1 ++ u :: us2)) <= V.C17.Model.max_records (wc_scfg wc) ->
-  (u = UStoreRecord rk \/ exists q0 qr0 t0, u = UCmd q0 (UCPut qr0 rk) t0) ->
+  stores wc (fst (crun wc (w0 wc m L) us1)) u rk ->
   let w := fst (crun wc (w0 wc m L) (us1 ++ u :: us2)) in
   fst (cstep wc w (UCmd q (UCGet QOne rk) target)) =
   (w, [OPartial q (g_local (wc_g wc)) LOCAL_REC; OGetRecSuccess q])).
@@ -147,12 +148,33 @@ Check (C16_compose_no_wait :
   1 <= g_alpha (wc_g wc) ->
   let s := w_st (fst (crun wc (w0 wc m (length (lkey wc))) us)) in
   aget q (eng s) = Some x -> In p (waiting x) -> owes s (negb (is_track x)) q p).
+Check (C16_compose_one_terminal :
+  forall wc m us q,
+  ufresh [] us ->
+  let W0 := w0 wc m (length (lkey wc)) in
+  (terminals q (snd (crun wc W0 us)) + (if live q (w_st (fst (crun wc W0 us))) then 1 else 0) =
+   cstarted wc W0 q us)%nat /\
+  (cstarted wc W0 q us <= ustarted q us)%nat /\ (cstarted wc W0 q us <= 1)%nat).
 Check (C16_compose_terminates :
   forall wc m us q,
   1 <= g_alpha (wc_g wc) -> ufresh [] us ->
-  let w := fst (crun wc (w0 wc m (length (lkey wc))) us) in
+  let W0 := w0 wc m (length (lkey wc)) in
+  let w := fst (crun wc W0 us) in
   idle (w_st w) -> quiescent (w_st w) = true ->
-  terminals q (snd (crun wc (w0 wc m (length (lkey wc))) us)) = ustarted q us /\ (ustarted q us <= 1)%nat).
+  terminals q (snd (crun wc W0 us)) = cstarted wc W0 q us /\ (cstarted wc W0 q us <= 1)%nat).
+Check (C16_compose_fair_terminates :
+  forall wc m U us0 us1 q,
+  keys_ok wc -> 1 <= g_alpha (wc_g wc) ->
+  (forall p, In p (UNKNOWN :: map fst (wc_keys wc)) -> In p U) ->
+  ufresh [] (us0 ++ us1) -> Forall (ucmd_ok (wc_g wc)) us0 -> Forall (uev_in_U U) (us0 ++ us1) ->
+  let W0 := w0 wc m (length (lkey wc)) in
+  let w1 := fst (crun wc W0 us0) in
+  let es1 := elabs wc w1 us1 in
+  fair_run (wc_g wc) (w_st w1) es1 ->
+  (length (work es1) <= budget (length U) (wc_g wc) (elabs wc W0 us0))%nat /\
+  (stuck (w_st (fst (crun wc w1 us1))) ->
+   terminals q (snd (crun wc W0 (us0 ++ us1))) = cstarted wc W0 q (us0 ++ us1) /\
+   (cstarted wc W0 q (us0 ++ us1) <= 1)%nat)).
 Check (C16_compose_at_most_one :
   forall wc m us k q p,
   keys_ok wc -> ufresh [] us -> Forall (ucmd_ok (wc_g wc)) us ->
@@ -167,6 +189,104 @@ Check (C16_compose_quorum_honest :
     find_quorum q es = Some qr /\ In (OTrack q targets) outs /\ NoDup S /\
     clamp qr (N.of_nat (length targets)) <= N.of_nat (length S) /\
     (forall p, In p S -> In (q, p) (put_sends (wc_g wc) (st0 m) es) /\ In p targets)).
+Check (C16_closed_while_outstanding :
+  forall g m es p,
+  1 <= g_alpha g ->
+  let s := fst (run g (st0 m) es) in
+  aget p (conn s) <> None ->
+  let s' := fst (fst (step g s (EClosed p))) in
+  aget p (peers s') = None /\ futs s' = futs s /\ pdial s' = pdial s /\
+  forall q x, aget q (eng s') = Some x -> In p (waiting x) ->
+    owes_dial s' (negb (is_track x)) q p \/ owes_fut s' (negb (is_track x)) q p).
+Check (C16_bounded_time :
+  forall D g m es0 a e b,
+  1 <= g_alpha g -> is_tick e = false ->
+  let s0 := fst (run g (st0 m) es0) in
+  fair_run g s0 (a ++ e :: b) ->
+  timed D g s0 (restamp (now s0) [] (okeys s0)) (a ++ e :: b) ->
+  now (fst (run g s0 a)) <= now s0 + D * N.of_nat (S (length (work a)))).
+Check (C16_bounded_time_budget :
+  forall D U g m es0 a e b,
+  1 <= g_alpha g -> fresh_ids [] (es0 ++ a ++ e :: b) -> cmds_ok g es0 ->
+  evs_in_U U es0 -> evs_in_U U (a ++ e :: b) -> is_tick e = false ->
+  let s0 := fst (run g (st0 m) es0) in
+  fair_run g s0 (a ++ e :: b) ->
+  timed D g s0 (restamp (now s0) [] (okeys s0)) (a ++ e :: b) ->
+  now (fst (run g s0 a)) <= now s0 + D * N.of_nat (budget (length U) g es0)).
+Check (C16_inbound_isolated :
+  forall g s e,
+  inbound_ev s e ->
+  let s' := fst (fst (step g s e)) in
+  let o := snd (fst (step g s e)) in
+  eng s' = eng s /\ pdial s' = pdial s /\ psub s' = psub s /\
+  (forall p acts, aget p (peers s) = Some acts -> aget p (peers s') = Some acts) /\
+  (forall x, In x o -> x = OIncomingRecord \/ x = OIncomingProvider) /\
+  (forall f, In f (futs s) -> f_q f <> None -> In f (futs s'))).
+Check (C16_inbound_reply :
+  forall wc w id rq b ps,
+  keys_ok wc -> V.C14.Proofs.Inv (lkey wc) (wc_K wc) (w_rt w) -> SI wc (w_store w) -> 1 <= wc_ttl wc ->
+  reply_of wc w (UInReq id rq) = Some (b, ps) ->
+  exists target,
+    (rq = IFindNode target \/ (exists rk, rq = IGetValue rk target) \/ rq = IGetProviders target) /\
+    ps = seeds_of wc (w_rt w) target /\ ~ In (g_local (wc_g wc)) ps /\
+    (length ps <= N.to_nat (g_k (wc_g wc)))%nat /\
+    (b = true <-> exists rk, rq = IGetValue rk target /\ stored (w_store w) rk)).
+Check (C16_serve_after_put :
+  forall wc m L us1 u us2 rk id target,
+  1 <= wc_ttl wc -> REC_LEN < V.C17.Model.max_size (wc_scfg wc) ->
+  N.of_nat (length (us1 ++ u :: us2)) <= V.C17.Model.max_records (wc_scfg wc) ->
+  stores wc (fst (crun wc (w0 wc m L) us1)) u rk ->
+  let w := fst (crun wc (w0 wc m L) (us1 ++ u :: us2)) in
+  inbound_read (w_st w) id = true ->
+  reply_of wc w (UInReq id (IGetValue rk target)) = Some (true, seeds_of wc (w_rt w) target)).
+Check (C16_manual_validation :
+  forall wc w u,
+  wc_vauto wc = false ->
+  (exists e, u = UEv e) \/ (exists id rk, u = UInReq id (IPutValue rk)) ->
+  w_store (fst (fst (cstep wc w u))) = w_store w).
+Check (C16_auto_validation :
+  forall wc w id rk,
+  wc_vauto wc = true -> inbound_read (w_st w) id = true ->
+  w_store (fst (fst (cstep wc w (UInReq id (IPutValue rk))))) =
+  V.C17.Model.put (wc_scfg wc) (w_store w) (local_record wc rk)).
+Check (C16_manual_routing_table :
+  forall wc m L us n,
+  wc_auto wc = false ->
+  In n (concat (w_rt (fst (crun wc (w0 wc m L) us)))) -> V.C14.Model.n_key n <> [] ->
+  exists p, In (UAddKnownPeer p true) us /\ V.C14.Model.n_key n = pkey wc p).
+Check (C16_refresh_due :
+  forall wc m L us q rk target,
+  let w := fst (crun wc (w0 wc m L) us) in
+  In rk (w_timers w) ->
+  fst (fst (elab wc w (UFire q rk target))) =
+  match last_prov rk None us with
+  | Some qr => ECmd q (CRefresh qr) (dists_of wc target) (seeds_of wc (w_rt w) target)
+  | None => ENop
+  end /\
+  (last_prov rk None us <> None -> In rk (w_timers (fst (fst (cstep wc w (UFire q rk target))))))).
+Check (C16_provided_has_timer :
+  forall wc m L us rk,
+  last_prov rk None us <> None -> In rk (w_timers (fst (crun wc (w0 wc m L) us)))).
+Check (C16_executor_sound :
+  forall T k w r, res_ok k (fst (exec T k w r)) = true).
+Check (C16_executor_complete :
+  forall T k res,
+  0 < t_w T -> 0 < t_r T -> res_ok k res = true -> exists w r, fst (exec T k w r) = res).
+Check (C16_executor_bounded :
+  forall T k w r, snd (exec T k w r) <= t_w T + t_r T).
+Check (C16_executor_silent_peer :
+  forall T k t,
+  t < t_w T ->
+  exec T k (WAccept t) RNever =
+  match k with
+  | FReqResp => (RReadFail, t + t_r T)
+  | FReqEat => (RAssume, t + t_r T)
+  | FInRead => (RReadFail, t_r T)
+  | _ => (RSendOk, t)
+  end).
+Check (C16_executor_sent :
+  forall T k w r,
+  k = FReqEat \/ k = FSend -> sent_res (fst (exec T k w r)) = written T w).
 Check (C16_default_config :
   1 <= V.gen.Consts.PARALLELISM_FACTOR /\ 0 < V.gen.Consts.KAD_READ_TIMEOUT_SECS /\
   0 < V.gen.Consts.KAD_WRITE_TIMEOUT_SECS).
